@@ -32,6 +32,11 @@ pub enum Mutation {
     /// the mask applied half-way, other byte order, ...). Does nothing when
     /// the derived value equals the right trailer.
     TrailerFrom { kind: TrailerKind },
+    /// grow the file to `len` bytes: header kept, the middle filled with one
+    /// byte value, the 20-byte footer kept at the new end with its root
+    /// address rewritten to `len - 21` (so that the file opens). For sizes
+    /// that no replay file could carry in full (4 GiB and more).
+    PadTo { len: u64 },
 }
 
 #[derive(Clone, Copy, Debug, PartialEq, Eq)]
@@ -150,6 +155,18 @@ pub fn apply(bytes: &mut Vec<u8>, m: &Mutation) {
                 let n = bytes.len();
                 bytes.truncate(n - 4);
                 bytes[..8].copy_from_slice(&v.to_le_bytes());
+            }
+        }
+        Mutation::PadTo { len } => {
+            let n = bytes.len();
+            let len = *len as usize;
+            if n >= 36 && len > n {
+                let footer: Vec<u8> = bytes[n - 20..].to_vec();
+                bytes.truncate(16);
+                bytes.resize(len - 20, 0x5a);
+                bytes.extend_from_slice(&footer);
+                let root = (len - 21) as u64;
+                bytes[len - 12..len - 4].copy_from_slice(&root.to_le_bytes());
             }
         }
         Mutation::TrailerFrom { kind } => {
@@ -428,6 +445,15 @@ fn env_probe(bytes: &[u8]) -> Option<String> {
 }
 
 pub fn check_c20_bytes(bytes: &[u8]) -> Option<Violation> {
+    if bytes.len() >= (1 << 30) {
+        // a file of a GiB or more: the in-process probe only (copies, child
+        // processes and unaligned placements would move tens of GiB around)
+        let p = probe(bytes);
+        return p.panic.map(|m| Violation {
+            oracle: "C20.panic_in_open_accessors_or_verify".into(),
+            observed: format!("{} on {} bytes", m, bytes.len()),
+        });
+    }
     if bytes.len() >= (4 << 20) - 16 {
         if let Some(m) = env_probe(bytes) {
             return Some(Violation {
